@@ -58,7 +58,16 @@ class AwesomeyamlLoader(yaml.Loader):
         if not convert:
             return value
 
+        # an alias denotes the anchored node itself: plain values are converted once per yaml node, so that
+        # whatever the anchored node inherits from its surroundings (e.g. an enclosing !unsafe) holds for its aliases too
+        if not hasattr(self, '_converted_plain'):
+            self._converted_plain = {}
+        if node in self._converted_plain:
+            return self._converted_plain[node]
+
         aynode = self._convert(value, node)
+        if value is not aynode and isinstance(node, yaml.ScalarNode):
+            self._converted_plain[node] = aynode
 
         # note: if an enclosing node is being constructed in the "deep" mode, PyYAML has already populated
         # ``value`` (regardless of our own ``deep`` argument), hence ``aynode`` already holds all its children
